@@ -91,14 +91,14 @@ def reduce_hazards(ctx, tk):
             continue
         what = "the value padded for trailing empty rows is a number also for ufuncs without identity (maximum, minimum)"
         if _is_identity(cv):
-            guarded = any(t.k == "cmp" and t.a[0] == "is not" and _is_identity(t.a[1]) and truth for t, truth, _ in facts_at(fa, n))
+            guarded = any(t.k == "cmp" and _is_identity(t.a[1]) and is_const(t.a[2], None) and ((t.a[0] in ("is not", "!=")) == truth) for t, truth, _ in facts_at(fa, n))
             ctx.decide("C05.a", f, what, True if guarded else False,
                        "np.pad(..., constant_values=ufunc.identity) raises TypeError when identity is None: max/min of an array whose last row is "
                        "empty fail for every non-empty row as well (the patch-up below does check `identity is not None`)", node=c.node, key="pad-none", engine="KB")
         else:
             ctx.holds("C05.a", f, what, node=c.node, key="pad-none", engine="KB")
     # patch-up: every normal return passes the `identity is not None` test; its true branch stores identity at empty rows
-    tests = [n for n in fa.cfg.nodes if n.kind == "test" and fa.cfg.is_reachable(n) and _is_identity_test(fa.term(n.ast, n))]
+    tests = [n for n in fa.cfg.nodes if n.kind == "test" and fa.cfg.is_reachable(n) and _identity_test_polarity(fa.term(n.ast, n)) is not None]
     what = "every result leaves _reduce through the identity patch-up for empty rows"
     if not tests:
         ctx.violated("C05.a", f, what, "no `ufunc.identity is not None` patch-up found: an empty row reports the next row's first element", engine="E1")
@@ -110,22 +110,20 @@ def reduce_hazards(ctx, tk):
                              "(e.g. prod of an empty row must be 1, all() True)" % ast.unparse(r.ast), node=r.ast, engine="E1")
         else:
             ctx.holds("C05.a", f, what, key="patch-must-pass", engine="E1")
-        for t in tests:
-            stores = []
-            for n in fa.cfg.stmts():
-                if n.kind == "stmt" and isinstance(n.ast, ast.Assign) and isinstance(n.ast.targets[0], ast.Subscript):
-                    fs = fa.cfg.facts_at(n)
-                    if any(tt is t and truth for tt, truth in fs):
-                        stores.append(n)
-            whatp = "the patch-up stores the identity exactly at the empty rows"
-            if not stores:
-                ctx.violated("C05.a", f, whatp, "no store under `identity is not None`", node=t.ast, engine="E1")
-            for s in stores:
-                mask = fa.term(s.ast.targets[0].slice, s)
-                val = fa.term(s.ast.value, s)
-                pol = _empty_mask_polarity(mask)
-                ctx.decide("C05.a", f, whatp, pol if _is_identity(val) else (None if pol is not False else False),
-                           "mask `%s` selects the non-empty rows" % (mask,), node=s.ast, key="patch-polarity", engine="E1")
+        stores = []
+        for n in fa.cfg.stmts():
+            if n.kind == "stmt" and isinstance(n.ast, ast.Assign) and isinstance(n.ast.targets[0], ast.Subscript):
+                if any(t.k == "cmp" and _is_identity(t.a[1]) and is_const(t.a[2], None) and ((t.a[0] in ("is not", "!=")) == truth) for t, truth, _ in facts_at(fa, n)):
+                    stores.append(n)
+        whatp = "the patch-up stores the identity exactly at the empty rows"
+        if not stores:
+            ctx.violated("C05.a", f, whatp, "no store under `identity is not None`", node=tests[0].ast, engine="E1")
+        for s in stores:
+            mask = fa.term(s.ast.targets[0].slice, s)
+            val = fa.term(s.ast.value, s)
+            pol = _empty_mask_polarity(mask)
+            ctx.decide("C05.a", f, whatp, pol if _is_identity(val) else (None if pol is not False else False),
+                       "mask `%s` selects the non-empty rows" % (mask,), node=s.ast, key="patch-polarity", engine="E1")
     # all-empty case
     for n in fa.cfg.stmts():
         if n.kind == "stmt" and isinstance(n.ast, ast.Assign):
@@ -140,8 +138,14 @@ def reduce_hazards(ctx, tk):
                            "all-empty result is built with np.%s: wrong for identities other than that constant" % nm, node=n.ast, key="all-empty", engine="E1")
 
 
-def _is_identity_test(t):
-    return t.k == "cmp" and t.a[0] in ("is not", "!=") and _is_identity(t.a[1]) and is_const(t.a[2], None)
+def _identity_test_polarity(t):
+    """True/False when the condition is (a negation of) `identity is not None`; None otherwise"""
+    neg = False
+    while t.k == "un" and t.a[0] == "not":
+        t, neg = t.a[1], not neg
+    if t.k == "cmp" and _is_identity(t.a[1]) and is_const(t.a[2], None) and t.a[0] in ("is not", "!=", "is", "=="):
+        return (t.a[0] in ("is not", "!=")) != neg
+    return None
 
 
 def _empty_mask_polarity(mask):
@@ -241,7 +245,7 @@ def wrapper(ctx, tk):
     for r in fa.cfg.returns():
         tm = fa.term(r.ast.value, r)
         facts = facts_at(fa, r)
-        if any(t.k == "cmp" and t.a[0] == "is" and t.a[1].k == "param" and t.a[1].a[0] == "axis" and is_const(t.a[2], None) and truth for t, truth, _ in facts):
+        if any(t.k == "cmp" and t.a[0] in ("is", "is not", "==", "!=") and t.a[1].k == "param" and t.a[1].a[0] == "axis" and is_const(t.a[2], None) and ((t.a[0] in ("is", "==")) == truth) for t, truth, _ in facts):
             ok = None
             for x in walk(tm):
                 if x.k == "call" and x.a[0].k == "call" and x.a[0].a[0].k == "global" and x.a[0].a[0].a[0] == "getattr":
